@@ -53,6 +53,24 @@ def key_pair_fails(rng, n):
                 k, show(keys[k]), show(ident))})
             break
         keys[k] = ident
+    # the same function OBJECT whose captured state changes between two submissions is a different call
+    if not fails:
+        box = [1]
+
+        def hc(x):
+            return x + box[0]
+        glob = {"scale": 2}
+        hg = eval("lambda x: x * scale", glob)          # a function reading a global of its own namespace
+        for name, fn, change in (("a closure over a list that is modified", hc, lambda: box.__setitem__(0, box[0] + 1)),
+                                 ("a function reading a module-level global that is reassigned", hg, lambda: glob.__setitem__("scale", glob["scale"] + 1))):
+            before = [ser.serialize_funct_h5(fn, [1], {}, {})[0] for _ in range(2)]
+            change()
+            after = ser.serialize_funct_h5(fn, [1], {}, {})[0]
+            if before[0] != before[1]:
+                fails.append({"why": "the key of one and the same call is not stable: %r" % (before,)})
+            elif after == before[0]:
+                fails.append({"why": "%s keeps its cache key %s although it now computes something else "
+                                     "(the earlier result would be served)" % (name, after)})
     return fails, fa
 
 
